@@ -55,6 +55,7 @@ type resolverContext struct {
 }
 
 func newResolverContext(options *ExpandOptions) *resolverContext {
+	verifEv("call")
 	expandOptions := optionsOrDefault(options)
 
 	// path loader may be overridden by options
